@@ -14,6 +14,7 @@ import (
 	"context"
 	"crypto/sha256"
 	"encoding/base64"
+	"encoding/binary"
 	"encoding/hex"
 	"encoding/json"
 	"fmt"
@@ -367,6 +368,49 @@ type vWalkC04 struct {
 	scan     *vScanC04
 	zdec     *zstd.Decoder
 	seenFile map[string]bool // store/type/name/hash of files already walked (a retried identical save is the same object)
+	ks       []vKsC04        // key stream blocks (ciphertext XOR plaintext) of every object walked
+	ksHolder []string
+}
+
+type vKsC04 struct {
+	a, b uint64
+	obj  int32
+	blk  int32
+}
+
+// keystream records the 16-byte key stream blocks of one object (obj = nonce||ciphertext||mac,
+// pt = what it decrypts to, before decompression).
+func (w *vWalkC04) keystream(obj, pt []byte, holder string) {
+	if len(obj) < crypto.Extension || len(obj)-crypto.Extension != len(pt) {
+		return
+	}
+	ct := obj[16 : len(obj)-16]
+	w.ksHolder = append(w.ksHolder, holder)
+	oi := int32(len(w.ksHolder) - 1)
+	for i := 0; i+16 <= len(ct); i += 16 {
+		w.ks = append(w.ks, vKsC04{
+			a:   binary.LittleEndian.Uint64(ct[i:]) ^ binary.LittleEndian.Uint64(pt[i:]),
+			b:   binary.LittleEndian.Uint64(ct[i+8:]) ^ binary.LittleEndian.Uint64(pt[i+8:]),
+			obj: oi, blk: int32(i / 16),
+		})
+	}
+}
+
+// keystreamReuse: no 16-byte pad may be used for two plaintext blocks anywhere in the history.
+func (w *vWalkC04) keystreamReuse() error {
+	sort.Slice(w.ks, func(i, j int) bool {
+		if w.ks[i].a != w.ks[j].a {
+			return w.ks[i].a < w.ks[j].a
+		}
+		return w.ks[i].b < w.ks[j].b
+	})
+	for i := 1; i < len(w.ks); i++ {
+		p, q := w.ks[i-1], w.ks[i]
+		if p.a == q.a && p.b == q.b {
+			return fmt.Errorf("key stream block reused: %s offset %d and %s offset %d are encrypted with the same 16-byte pad", w.ksHolder[p.obj], int(p.blk)*16, w.ksHolder[q.obj], int(q.blk)*16)
+		}
+	}
+	return nil
 }
 
 func (w *vWalkC04) nonce(n []byte, holder, kind string) error {
@@ -431,6 +475,9 @@ func (w *vWalkC04) file(store string, key *crypto.Key, passwords []string, op vb
 		if err := w.nonce(hdr[:16], id+" header", "packheader"); err != nil {
 			return err
 		}
+		if hpt, err := vOpenC04(key, hdr); err == nil {
+			w.keystream(hdr, hpt, id+" header")
+		}
 		// the blobs must tile the part before the header exactly: no unaccounted (unencrypted) bytes
 		pos := uint(0)
 		for _, en := range entries {
@@ -446,6 +493,7 @@ func (w *vWalkC04) file(store string, key *crypto.Key, passwords []string, op vb
 			if err != nil {
 				return fmt.Errorf("%s: blob %v does not decrypt with the master key: %v", id, en.ID.Str(), err)
 			}
+			w.keystream(ct, pt, fmt.Sprintf("%s blob %v@%d", id, en.ID.Str(), en.Offset))
 			if en.IsCompressed() {
 				pt, err = w.zdec.DecodeAll(pt, nil)
 				if err != nil {
@@ -468,6 +516,7 @@ func (w *vWalkC04) file(store string, key *crypto.Key, passwords []string, op vb
 		if err != nil {
 			return fmt.Errorf("%s: not an object encrypted with the master key: %v (first bytes %q)", id, err, b[:min(len(b), 40)])
 		}
+		w.keystream(b, pt, id)
 		if op.Key.Type != backend.ConfigFile && len(pt) > 0 && pt[0] == 2 {
 			pt, err = w.zdec.DecodeAll(pt[1:], nil)
 			if err != nil {
@@ -881,6 +930,10 @@ func TestVerifC04NoPlaintextFreshNonces(t *testing.T) {
 					t.Fatalf("harness: %s:%s is in the store but was not logged", h.name, k)
 				}
 			}
+		}
+
+		if err := w.keystreamReuse(); err != nil {
+			t.Fatalf("%v\ncase %s", err, vJSON(c))
 		}
 
 		// scanner self-test on a planted leak (keeps the oracle honest in every run)
